@@ -495,7 +495,16 @@ func c16R5(c *Ctx, r *Report) {
 	// the entry for the document's current revision is forwarded by the processEntry call(s) that follow the invalidations
 	// (earlier calls forward unused / deduplicated sequences): no invalidation may be reachable after such a call
 	okOrder := false
+	deferred := false
+	for _, x := range rm {
+		if _, isDefer := x.(*ssa.Defer); isDefer {
+			deferred = true
+		}
+	}
 	for _, pe := range pes {
+		if deferred {
+			break
+		}
 		after := false
 		for _, x := range rm {
 			if ReachAfter(x, func(in ssa.Instruction) bool { return in == ssa.Instruction(pe) }, nil) != nil {
